@@ -1,6 +1,7 @@
 package props
 
 import (
+	"encoding/base64"
 	"fmt"
 	"math/rand/v2"
 	"strings"
@@ -227,7 +228,14 @@ func runC20(c *mon.Ctx) {
 		sp, _, _ := SPFor(r, w, g.Signer)
 		sp.AllowMissingAttributes = true
 		cs.Nontrivial(fmt.Sprintf("%x", mon.Hash64(doc)))
-		c20Compare(cs, sp, sim.Encode(doc, g.Level), false)
+		enc := sim.Encode(doc, g.Level)
+		switch k % 12 {
+		case 3: // legal DEFLATE streams whose first bytes look like text
+			enc = base64.StdEncoding.EncodeToString(sim.DeflateStartingWithLT([]byte(doc)))
+		case 7:
+			enc = base64.StdEncoding.EncodeToString(sim.DeflateStoredSniff([]byte(doc), ' ', 0x3C))
+		}
+		c20Compare(cs, sp, enc, false)
 	}
 	// (a') logout responses
 	nl := c.N(1200, 60000)
